@@ -270,7 +270,8 @@ fn boundary_bytes(rng: &mut Rng, n: usize) -> Vec<u8> {
 /// a valid image of a sized shape; padding bytes are `PAD`
 pub fn gen_sized(sh: &Shape, rng: &mut Rng) -> Vec<u8> {
     match sh {
-        Shape::Prim(s, _) => boundary_bytes(rng, *s),
+        // 0xEE is reserved for padding (the model treats it as a wildcard inside raw images)
+        Shape::Prim(s, _) => boundary_bytes(rng, *s).into_iter().map(|b| if b == PAD { 0xED } else { b }).collect(),
         Shape::Bool => vec![rng.below(2) as u8],
         Shape::Arr(e, n) => (0..*n).flat_map(|_| gen_sized(e, rng)).collect(),
         Shape::SStruct(fs) => {
@@ -356,5 +357,73 @@ pub fn gen_init(sh: &Shape, rng: &mut Rng, depth: usize) -> D {
             }
         }
         _ => unreachable!(),
+    }
+}
+
+// ---- specification-side rendering: what an initialiser says the content is ---------------------
+fn hexs(b: &[u8]) -> String {
+    b.iter().map(|x| format!("{:02x}", x)).collect()
+}
+/// canonical rendering (no capacities) of a valid sized image, by shape
+pub fn render_sized(sh: &Shape, b: &[u8]) -> String {
+    match sh {
+        Shape::Prim(s, _) => format!("r:{}", hexs(&b[..*s])),
+        Shape::Bool => format!("b:{}", if b[0] == 0 { 0 } else { 1 }),
+        Shape::Arr(e, n) => {
+            let es = e.size();
+            format!("[{}]", (0..*n).map(|i| render_sized(e, &b[i * es..(i + 1) * es])).collect::<Vec<_>>().join(" "))
+        }
+        Shape::SStruct(fs) => {
+            let offs = Shape::field_offsets(fs);
+            format!("({})", fs.iter().zip(offs).map(|(f, o)| render_sized(f, &b[o..])).collect::<Vec<_>>().join(" "))
+        }
+        Shape::CEnum(l, _) => format!("<{}>", decode_len(l, b)),
+        Shape::SEnum(l, vs) => {
+            let t = decode_len(l, b) as usize;
+            let doff = sh.data_offset();
+            let offs = Shape::field_offsets(&vs[t]);
+            let fs: Vec<String> = vs[t].iter().zip(offs).map(|(f, o)| render_sized(f, &b[doff + o..])).collect();
+            if fs.is_empty() { format!("<{}>", t) } else { format!("<{} {}>", t, fs.join(" ")) }
+        }
+        _ => panic!("render_sized on unsized"),
+    }
+}
+pub fn decode_len(l: &LenS, b: &[u8]) -> u128 {
+    let mut v = 0u128;
+    for i in 0..l.size {
+        let byte = if l.be { b[l.size - 1 - i] } else { b[i] } as u128;
+        v |= byte << (8 * i);
+    }
+    v
+}
+/// canonical rendering (no capacities) of the content an initialiser specifies
+pub fn render_init(sh: &Shape, d: &D) -> String {
+    match (sh, d) {
+        (_, D::Raw(b)) => render_sized(sh, b),
+        (Shape::Vec(_, _), D::VecEmpty) => "V[]".into(),
+        (Shape::Vec(e, _), D::VecArr(xs)) | (Shape::Vec(e, _), D::VecIter(xs)) => format!("V[{}]", xs.iter().map(|x| render_sized(e, x)).collect::<Vec<_>>().join(" ")),
+        (Shape::Str(_), D::StrFrom(b)) => format!("S:{}", hexs(b)),
+        (Shape::Flex(_, _), D::FlexEmpty) => "F[]".into(),
+        (Shape::Flex(e, _), D::FlexIter(xs)) => format!("F[{}]", xs.iter().map(|x| render_init(e, x)).collect::<Vec<_>>().join(" ")),
+        (Shape::UStruct(fs), D::Struct(vals, last)) => {
+            let n = fs.len();
+            let mut parts: Vec<String> = fs[..n - 1].iter().zip(vals).map(|(f, v)| render_sized(f, v)).collect();
+            parts.push(render_init(&fs[n - 1], last));
+            format!("({})", parts.join(" "))
+        }
+        (Shape::UEnum(_, vs), D::Enum(i, vals, last)) => {
+            let v = &vs[*i];
+            let mut parts: Vec<String> = vec![];
+            match last {
+                None => parts.extend(v.iter().zip(vals).map(|(f, x)| render_sized(f, x))),
+                Some(l) => {
+                    let n = v.len();
+                    parts.extend(v[..n - 1].iter().zip(vals).map(|(f, x)| render_sized(f, x)));
+                    parts.push(render_init(&v[n - 1], l));
+                }
+            }
+            if parts.is_empty() { format!("<{}>", i) } else { format!("<{} {}>", i, parts.join(" ")) }
+        }
+        _ => panic!("render_init: initialiser does not fit the shape"),
     }
 }
